@@ -23,7 +23,7 @@ pub fn prop() -> Prop {
 fn spec() -> Spec {
     Spec {
         kinds: vec![Kind { name: "jacobian", quick: 300_000, thorough: 8_000_000, serial: false }, Kind { name: "shared_history", quick: 20_000, thorough: 500_000, serial: false }],
-        rule: "each case = non-degenerate 6-DOF robot (64 sign patterns, offsets), bare or in a stack of depth 1..3 from Tool/Base/Frame/Parallelogram, with or without joint limits (a share of the joint vectors sits within the differencing step of a limit) x q x epsilon in {1e-7,1e-6,1e-5}; the Jacobian is reconstructed through torques_from_vector(e_k) and compared column by column with the geometric Jacobian of the reference chain (x base, tool lever arm, coupling matrix for parallelograms); velocities reproduce the twist when cond(J) <= 1e6; torques == J^T F; isometry- and vector-based entry points agree. shared_history: 2-3 robots sharing link lengths (other signs / offsets / c4) evaluated at the bit-identical joint vector, step and stack in the order A,B,(C,)A,B,.. on one thread, each judged by its own geometric Jacobian. non-trivial = cond(J) <= 1e6; distinct = hash(robot, stack, q, eps)",
+        rule: "each case = non-degenerate 6-DOF robot (64 sign patterns, offsets), bare or in a stack of depth 1..3 from Tool/Base/Frame/Parallelogram, with or without joint limits (a share of the joint vectors sits within the differencing step of a limit) x q x epsilon in {1e-7,1e-6,1e-5}; the Jacobian is reconstructed through torques_from_vector(e_k) and compared column by column with the geometric Jacobian of the reference chain (x base, tool lever arm, coupling matrix for parallelograms); velocities reproduce the twist when cond(J) <= 1e6; torques == J^T F; isometry- and vector-based entry points agree. shared_history: 2-3 robots sharing link lengths (other signs / offsets / c4) evaluated at the bit-identical joint vector, step and stack in the order A,B,(C,)A,B,.. on one thread, each judged by its own geometric Jacobian. non-trivial = cond(J) <= 1e6; distinct = hash(robot, stack, q, eps) Workload additions: joint vectors beyond half a turn and with joints resting at exact zeros; isometries handed over with the negated quaternion; kind shared_history (as in the rule).",
         assumptions: vec![
             "|J - J_geo| <= 5*eps*(1+reach) + 4e-15*(1+reach)/eps (forward-difference truncation + rounding)",
             "J*qdot == x within cond(J)*1e-10*(1+|x|) when cond(J) <= 1e6 (SVD computed in the harness)",
